@@ -20,6 +20,10 @@ Clauses (key of the first one that fails):
                          is done;
 * `leak-at-quiescence`   when no search is running or waiting, both semaphores are empty;
 * `bad-event`            a call returned that the ledger says was not pending (double return).
+
+A context may become done *while* a call is in progress (`Obs.fired`); the call may then fail or succeed, but either way
+the ledger must still agree with the semaphores: a call that fails after the semaphore granted it a slot must have put
+the slot back.
 -/
 import ZoektModel.C20.Model
 namespace ZoektModel.C20
@@ -108,10 +112,16 @@ def checkObs (capI capB : Nat) (l : Ledger) (o : Obs) : Except String Unit :=
   else if l.all Book.quiescent && (o.curI ≠ 0 || o.curB ≠ 0) then .error "leak-at-quiescence"
   else .ok ()
 
+/-- contexts that became done during the operation (`Obs.fired`): from now on a failure of these searches is not
+    spurious -/
+def markFired (l : Ledger) (fired : List Nat) : Ledger :=
+  fired.foldl (fun acc p => acc.upd p fun b => { b with cancelled := true }) l
+
 def checkSteps (capI capB : Nat) : Ledger → List Op → List Obs → Except String Unit
   | _, [], [] => .ok ()
   | l, op :: ops, o :: os =>
-    -- `cancel` is recorded before the returns it causes
+    -- `cancel` (and a context that became done during the call) is recorded before the returns it causes
+    let l := markFired l o.fired
     match applySelf l op o.out.self with
     | .error e => .error e
     | .ok l1 =>
